@@ -25,7 +25,10 @@ package verifharness
 //   hook <n> (<address> <ntopics> <topic>* <data> <parsed>)^n -> <status> <dump>   (PostTxProcessing on an injected receipt)
 //     parsed := N | X | E <event …>    what syscontracts.ParseLog returns for the data (computed with the real ABI)
 //   burn <module> <n> (<denom> <amount>)^n   -> ok|err|panic X:<module/feecollector/supply per coin> <dump>
-//   slash <validator index> <percent>        -> ok      (oracle only; last op of a history)
+//   slash <validator index> <percent> [past] -> ok      (oracle only; afterwards `skip` until the next reset; `past`: infraction at height 1)
+//   block <dt ns>                            -> ok <dump>   app.EndBlocker of the current height, app.BeginBlocker of the next one dt later
+//   dry <from> <node>                        -> <status> <dump>   the transaction on a context that is dropped
+//   (committed chain: cinit / dtx / restart / reimport / cslash — see c17_chain_test.go)
 //   govburn                                  -> ok      (oracle only; last op of a history)
 
 import (
@@ -36,6 +39,7 @@ import (
 	"strconv"
 	"strings"
 	"testing"
+	"time"
 
 	sdk "github.com/cosmos/cosmos-sdk/types"
 	authtypes "github.com/cosmos/cosmos-sdk/x/auth/types"
@@ -46,6 +50,7 @@ import (
 	"github.com/ethereum/go-ethereum/common"
 	ethtypes "github.com/ethereum/go-ethereum/core/types"
 	"github.com/ethereum/go-ethereum/crypto"
+	abci "github.com/tendermint/tendermint/abci/types"
 
 	"github.com/teleport-network/teleport/syscontracts"
 	govcontract "github.com/teleport-network/teleport/syscontracts/gov"
@@ -563,6 +568,7 @@ func (w *c17World) initLine() string {
 		return false
 	})
 	parts = append(parts, "props="+c17join(ps))
+	parts = append(parts, fmt.Sprintf("unbonding=%d", w.app.StakingKeeper.UnbondingTime(ctx).Nanoseconds()))
 	d := w.dump(ctx)
 	parts = append(parts, "deposits="+d[strings.Index(d, " G:")+3:])
 	return "init " + strings.Join(parts, " ")
@@ -591,10 +597,14 @@ func (w *c17World) apply(r *Rec, op string) (string, string) {
 	skip, mask := w.skip, w.maskB
 	c, out := w.apply1(r, op)
 	switch strings.Fields(op)[0] {
-	case "tx", "hook", "burn", "fund", "rewardtx", "govburn", "slash", "allocate":
+	case "tx", "hook", "burn", "fund", "rewardtx", "govburn", "slash", "allocate", "block", "dry":
 		if skip {
 			if strings.HasPrefix(out, "ok") {
-				r.Count("postslash." + strings.Fields(op)[0] + ".ok")
+				if mask {
+					r.Count("rewards." + strings.Fields(op)[0] + ".ok")
+				} else {
+					r.Count("postslash." + strings.Fields(op)[0] + ".ok")
+				}
 			}
 			return c, "skip"
 		}
@@ -652,10 +662,27 @@ func (w *c17World) apply1(r *Rec, op string) (string, string) {
 		c, out := w.applySlash(r, f)
 		w.skip = true
 		return c, out
+	case "block":
+		return w.applyBlock(r, f)
+	case "dry":
+		// (D) the same transaction on a context that is dropped (what Simulate / CheckTx / a failed multi-message tx do):
+		// nothing may change and later verdicts are unaffected
+		saved := w.ctx
+		before := w.dump(saved)
+		w.ctx, _ = saved.CacheContext()
+		c, out := w.applyTx(r, f, false)
+		w.ctx = saved
+		after := w.dump(w.ctx)
+		if after != before {
+			w.find(r, "C17:dry-run-leaked", "a transaction executed on a discarded context changed the state", after, before)
+		}
+		r.Count("dry." + strings.Fields(out)[0])
+		return c, strings.Fields(out)[0] + " " + after
 	case "allocate": // staking rewards for every validator (oracle on real state stays exact; the model does no reward arithmetic)
 		w.hist = append(w.hist, op)
 		w.allocateRewards()
-		w.maskB = true
+		w.maskB = true // (steers the generator away from balance boundaries)
+		w.skip = true  // payouts can decide even the status of later transactions: oracle only until the next reset
 		return op, "ok"
 	case "govburn":
 		return w.applyGovBurn(r, f)
@@ -761,6 +788,12 @@ func (w *c17World) applyTx(r *Rec, f []string, rewards bool) (string, string) {
 				r.Count("caller.contract")
 			}
 			r.Count("fn." + e.call.fn)
+			if e.call.amt != nil && e.call.amt.BitLen() >= 64 {
+				r.Count("bnd.ok.amount>=2^63")
+			}
+			if e.call.isGov() {
+				r.Count(fmt.Sprintf("vote.ok.p%d", e.call.pid))
+			}
 		}
 	}
 	switch {
@@ -800,7 +833,9 @@ func (w *c17World) applyTx(r *Rec, f []string, rewards bool) (string, string) {
 		if res.status == "ok" && strings.Contains(op, "withdraw") {
 			r.Count("rewardtx.withdraw-ok")
 		}
-		return op, res.status
+		// with rewards outstanding even the status can depend on payouts the model does not compute (a delegate that only the
+		// reward just withdrawn makes affordable): nothing is compared with the model, the oracle above judged the real state
+		return op, "done"
 	}
 	return op, res.status + " " + after
 }
@@ -1095,8 +1130,16 @@ func (w *c17World) applySlash(r *Rec, f []string) (string, string) {
 	}
 	pb, fb := pools(), w.app.BankKeeper.GetBalance(w.ctx, fc, w.denom).Amount
 	power := val.ConsensusPower(sdk.DefaultPowerReduction)
+	infraction := w.ctx.BlockHeight()
+	if len(f) > 3 && f[3] == "past" { // late evidence: unbonding entries / redelegations begun since then are slashed too
+		infraction = 1
+	}
+	nb := func() sdk.Int {
+		return w.app.BankKeeper.GetBalance(w.ctx, authtypes.NewModuleAddress(stakingtypes.NotBondedPoolName), w.denom).Amount
+	}
+	nbBefore := nb()
 	pan, msg := safely(func() {
-		w.app.StakingKeeper.Slash(w.ctx, cons, w.ctx.BlockHeight(), power, sdk.NewDecWithPrec(int64(pct), 2))
+		w.app.StakingKeeper.Slash(w.ctx, cons, infraction, power, sdk.NewDecWithPrec(int64(pct), 2))
 	})
 	if pan {
 		w.find(r, "C17:slash-panic", "Slash panicked: "+msg, "panic", "ok")
@@ -1107,11 +1150,70 @@ func (w *c17World) applySlash(r *Rec, f []string) (string, string) {
 	if lost.IsPositive() {
 		r.Count("slash.burned")
 	}
+	if !pan && nb().LT(nbBefore) {
+		r.Count("slash.burned.notbonded")
+	}
 	if w.allSupply(w.ctx) != supBefore || w.sumBalances(w.ctx) != sumBefore || !lost.Equal(gained) {
 		w.find(r, "C17:slash-changes-supply", "slashing (BurnCoins of the staking keeper) changed the supply or did not credit the fee collector",
 			fmt.Sprintf("supply %s pools lost %s fee collector gained %s", w.allSupply(w.ctx), lost, gained), "supply "+supBefore+", lost = gained")
 	}
 	return op, "ok"
+}
+
+// block: the real app.EndBlocker of the current height, then app.BeginBlocker of the next height `dt` ns later
+// (staking maturities, validator set updates, gov queues, distribution AllocateTokens, crisis, evm, feemarket, …).
+func (w *c17World) applyBlock(r *Rec, f []string) (string, string) {
+	op := strings.Join(f, " ")
+	w.hist = append(w.hist, op)
+	dt, _ := strconv.ParseInt(f[1], 10, 64)
+	supBefore, sumBefore := w.allSupply(w.ctx), w.sumBalances(w.ctx)
+	// expectation for the maturities: every entry whose completion time has come pays its balance to the delegator
+	due := map[string]sdk.Int{}
+	nowT := w.ctx.BlockTime()
+	w.app.StakingKeeper.IterateUnbondingDelegations(w.ctx, func(_ int64, u stakingtypes.UnbondingDelegation) bool {
+		for _, e := range u.Entries {
+			if !e.CompletionTime.After(nowT) {
+				if _, ok := due[u.DelegatorAddress]; !ok {
+					due[u.DelegatorAddress] = sdk.ZeroInt()
+				}
+				due[u.DelegatorAddress] = due[u.DelegatorAddress].Add(e.Balance)
+			}
+		}
+		return false
+	})
+	balBefore := map[string]sdk.Int{}
+	for d := range due {
+		a, _ := sdk.AccAddressFromBech32(d)
+		balBefore[d] = w.app.BankKeeper.GetBalance(w.ctx, a, w.denom).Amount
+	}
+	pan, msg := safely(func() { w.app.EndBlocker(w.ctx, abci.RequestEndBlock{Height: w.ctx.BlockHeight()}) })
+	if pan {
+		w.find(r, "C17:block:endblock-panic", "EndBlocker panicked: "+msg, "panic", "ok")
+		return op, "ok " + w.dump(w.ctx)
+	}
+	for d, amt := range due {
+		a, _ := sdk.AccAddressFromBech32(d)
+		got := w.app.BankKeeper.GetBalance(w.ctx, a, w.denom).Amount.Sub(balBefore[d])
+		if !got.Equal(amt) {
+			w.find(r, "C17:block:maturity", "a matured unbonding entry created through the staking contract did not pay its balance back to the caller", got.String(), amt.String())
+		}
+		if amt.IsPositive() {
+			r.Count("block.matured")
+		}
+	}
+	h := w.ctx.BlockHeader()
+	h.Height++
+	h.Time = h.Time.Add(time.Duration(dt))
+	w.ctx = w.ctx.WithBlockHeader(h)
+	pan, msg = safely(func() { w.app.BeginBlocker(w.ctx, abci.RequestBeginBlock{Header: h}) })
+	if pan {
+		w.find(r, "C17:block:beginblock-panic", "BeginBlocker panicked: "+msg, "panic", "ok")
+	}
+	if w.allSupply(w.ctx) != supBefore || w.sumBalances(w.ctx) != sumBefore {
+		w.find(r, "C17:block:supply-changed", "supply changed by EndBlock / BeginBlock", w.allSupply(w.ctx), supBefore)
+	}
+	r.Count("block")
+	return op, "ok " + w.dump(w.ctx)
 }
 
 // govburn: a proposal that misses its minimum deposit is deleted at the end of the deposit period and its deposits
@@ -1152,7 +1254,34 @@ var _ = bytes.Equal
 
 // ---- generator ---------------------------------------------------------------------------------------------------
 
+// blockOps: (V) real EndBlock / BeginBlock; when unbonding entries exist the next block time is put 1ns before / exactly
+// at / 1ns after the earliest completion time and a second block follows whose EndBlock runs at that time.
+func (g *c17Gen) blockOps() []string {
+	w := g.w
+	now := w.ctx.BlockTime()
+	var first *time.Time
+	w.app.StakingKeeper.IterateUnbondingDelegations(w.ctx, func(_ int64, u stakingtypes.UnbondingDelegation) bool {
+		for _, e := range u.Entries {
+			t := e.CompletionTime
+			if t.After(now) && (first == nil || t.Before(*first)) {
+				first = &t
+			}
+		}
+		return false
+	})
+	if first != nil && g.blocks <= 1 && g.pick(4) > 0 {
+		d := int64(g.pick(3) - 1)
+		g.r.Count(fmt.Sprintf("block.deadline%+d", d))
+		g.blocks += 2
+		return []string{fmt.Sprintf("block %d", first.Sub(now).Nanoseconds()+d), "block 1000000000"}
+	}
+	g.blocks++
+	return []string{fmt.Sprintf("block %d", []int64{1, 5_000_000_000, 3_600_000_000_000, int64(c17UnbondingTime)}[g.pick(4)])}
+}
+
 type c17Gen struct {
+	blocks int // blocks run in the current history (at most 3: the crisis module asserts invariants at height 5, and the
+	// `burn` operation deliberately takes coins out of module accounts behind the modules' backs)
 	w          *c17World
 	r          *Rec
 	saltN      int
@@ -1164,6 +1293,15 @@ type c17Gen struct {
 }
 
 func (g *c17Gen) pick(n int) int { return g.r.Rng.Intn(n) }
+
+// past: after at least one block, slash for an infraction at height 1 (late evidence) so that unbonding entries and
+// redelegations begun since then are slashed as well (burns out of the not-bonded pool)
+func (g *c17Gen) past() string {
+	if g.blocks > 0 && g.pick(3) > 0 {
+		return " past"
+	}
+	return ""
+}
 
 func (g *c17Gen) valString(mostlyValid bool) string {
 	w := g.w
@@ -1211,6 +1349,11 @@ func (g *c17Gen) amount(who common.Address, val string, fn string) *big.Int {
 	if fn != "delegate" {
 		ref = del
 	}
+	if g.pick(100) < 22 { // (B) boundary values of the uint256 amount field
+		b := c17Boundaries[g.pick(len(c17Boundaries))]
+		g.r.Count("bnd.amt." + b.name)
+		return b.val()
+	}
 	switch x := g.pick(100); {
 	case x < 50:
 		return new(big.Int).Mul(e18, big.NewInt(int64(1+g.pick(5))))
@@ -1238,6 +1381,25 @@ func (g *c17Gen) amount(who common.Address, val string, fn string) *big.Int {
 	default:
 		return new(big.Int).Add(bal, big.NewInt(int64(g.pick(3))))
 	}
+}
+
+type c17Boundary struct {
+	name string
+	val  func() *big.Int
+}
+
+func c17Pow2(n uint, d int64) func() *big.Int {
+	return func() *big.Int { return new(big.Int).Add(new(big.Int).Lsh(big.NewInt(1), n), big.NewInt(d)) }
+}
+
+var c17Boundaries = []c17Boundary{
+	{"2^31-1", c17Pow2(31, -1)}, {"2^31+1", c17Pow2(31, 1)}, {"2^32-1", c17Pow2(32, -1)}, {"2^32+1", c17Pow2(32, 1)},
+	{"2^53-1", c17Pow2(53, -1)}, {"2^53+1", c17Pow2(53, 1)}, {"2^63-1", c17Pow2(63, -1)}, {"2^63", c17Pow2(63, 0)},
+	{"2^64-1", c17Pow2(64, -1)}, {"2^64", c17Pow2(64, 0)}, {"2^64+k", c17Pow2(64, 12345)}, {"2^64+k", c17Pow2(64, 1)},
+	{"2^128", c17Pow2(128, 0)}, {"2^255", c17Pow2(255, 0)}, {"2^256-1", c17Pow2(256, -1)},
+	{"10^19", func() *big.Int { return new(big.Int).Exp(big.NewInt(10), big.NewInt(19), nil) }},
+	{"10^30", func() *big.Int { return new(big.Int).Exp(big.NewInt(10), big.NewInt(30), nil) }},
+	{"2^116", c17Pow2(116, 0)}, {"2^117", c17Pow2(117, 0)}, // around the consensus-power int64 limit (2^63 * 10^16)
 }
 
 // validCall: a call that is expected to succeed natively in the current state (sequences of
@@ -1285,7 +1447,13 @@ func (g *c17Gen) validCall(who common.Address) *c17Call {
 	}
 	switch {
 	case x < 40:
-		return &c17Call{fn: "delegate", v1: w.vals[g.pick(len(w.vals))].String(), amt: new(big.Int).Mul(e18, big.NewInt(int64(1+g.pick(5))))}
+		amt := new(big.Int).Mul(e18, big.NewInt(int64(1+g.pick(5))))
+		if who == w.eoas[1] && g.pick(3) == 0 && !w.maskB { // the rich account: boundary amounts that succeed
+			b := c17Boundaries[g.pick(12)] // … 2^64+k
+			g.r.Count("bnd.amt." + b.name)
+			amt = b.val()
+		}
+		return &c17Call{fn: "delegate", v1: w.vals[g.pick(len(w.vals))].String(), amt: amt}
 	case x < 55:
 		d := dels[g.pick(len(dels))]
 		return &c17Call{fn: "undelegate", v1: d.v.String(), amt: part(d.amt)}
@@ -1299,9 +1467,9 @@ func (g *c17Gen) validCall(who common.Address) *c17Call {
 	case x < 80:
 		return &c17Call{fn: "withdraw", v1: dels[g.pick(len(dels))].v.String()}
 	case x < 90:
-		return &c17Call{fn: "vote", pid: 1, opt: uint32(1 + g.pick(4))}
+		return &c17Call{fn: "vote", pid: []uint64{1, 3}[g.pick(2)], opt: uint32(1 + g.pick(4))}
 	default:
-		c := &c17Call{fn: "votew", pid: 1}
+		c := &c17Call{fn: "votew", pid: []uint64{1, 3}[g.pick(2)]}
 		perm := g.r.Rng.Perm(4)
 		k := 1 + g.pick(4)
 		left := uint64(100)
@@ -1385,8 +1553,12 @@ func (g *c17Gen) call(who common.Address) *c17Call {
 	case x < 70:
 		return &c17Call{fn: "withdraw", v1: g.valString(true)}
 	case x < 85:
-		c := &c17Call{fn: "vote", pid: 1, opt: uint32(1 + g.pick(4))}
-		switch g.pick(12) {
+		c := &c17Call{fn: "vote", pid: []uint64{1, 3}[g.pick(2)], opt: uint32(1 + g.pick(4))}
+		switch g.pick(14) {
+		case 12:
+			c.pid = 1 << 63
+		case 13:
+			c.pid = (1 << 63) - 1
 		case 0:
 			c.opt = 0
 		case 1:
@@ -1398,7 +1570,7 @@ func (g *c17Gen) call(who common.Address) *c17Call {
 		case 4:
 			c.pid = 2
 		case 5:
-			c.pid = 3
+			c.pid = 4
 		case 6:
 			c.pid = 0
 		case 7:
@@ -1406,8 +1578,34 @@ func (g *c17Gen) call(who common.Address) *c17Call {
 		}
 		return c
 	default:
-		c := &c17Call{fn: "votew", pid: 1}
-		switch g.pick(15) {
+		c := &c17Call{fn: "votew", pid: []uint64{1, 3}[g.pick(2)]}
+		switch g.pick(22) {
+		case 15: // (B) a single option whose weight is not 1
+			c.opts = []govcontract.GovOptionWeight{{Option: uint32(1 + g.pick(4)), Weight: []uint64{0, 1, 50, 99, 101, 1 << 32, 1 << 63, ^uint64(0)}[g.pick(8)]}}
+			g.r.Count("bnd.votew.single")
+		case 16, 17: // many options: every valid option once plus extras (duplicates / invalid options), 5 … 1000 entries
+			n := []int{5, 8, 100, 101, 1000}[g.pick(5)]
+			for i := 0; i < n; i++ {
+				o := uint32(1 + i%4)
+				if g.pick(3) == 0 {
+					o = uint32(g.pick(9))
+				}
+				wt := uint64(1)
+				if i == 0 && n <= 100 {
+					wt = uint64(101 - n)
+				}
+				c.opts = append(c.opts, govcontract.GovOptionWeight{Option: o, Weight: wt})
+			}
+			g.r.Count("bnd.votew.many")
+		case 18: // exactly the four options, weights 0 / 1 / 99
+			c.opts = []govcontract.GovOptionWeight{{Option: 1, Weight: 1}, {Option: 2, Weight: 99}, {Option: 3, Weight: 0}, {Option: 4, Weight: 0}}
+		case 19:
+			c.opts = []govcontract.GovOptionWeight{{Option: 1, Weight: 1}, {Option: 2, Weight: 1}, {Option: 3, Weight: 1}, {Option: 4, Weight: 97}}
+		case 20:
+			c.opts = []govcontract.GovOptionWeight{{Option: 2, Weight: 100}, {Option: 2, Weight: 100}}
+		case 21:
+			c.pid = []uint64{0, 2, 4, 1 << 63, ^uint64(0)}[g.pick(5)]
+			c.opts = []govcontract.GovOptionWeight{{Option: 1, Weight: 60}, {Option: 3, Weight: 40}}
 		case 12: // weights that become valid when truncated to 32 bits / when the sign is dropped
 			c.opts = []govcontract.GovOptionWeight{{Option: 1, Weight: (1 << 32) + 100}}
 		case 13:
@@ -1551,6 +1749,17 @@ func (g *c17Gen) body(self common.Address, depth int, victim common.Address) []*
 	return out
 }
 
+// c17CapOpts: weighted votes with hundreds of options only as the transaction's own call data (inside helper-contract
+// segments the payload length field has 16 bits, and the gas left after a failed static frame would not pay for them)
+func c17CapOpts(ns []*c17Node, max int) {
+	for _, n := range ns {
+		if n.call != nil && len(n.call.opts) > max {
+			n.call.opts = n.call.opts[:max]
+		}
+		c17CapOpts(n.body, max)
+	}
+}
+
 func (g *c17Gen) gasBurnt() bool { return g.shape["static"] || g.shape["value"] }
 
 // txOps: the funding operations of CREATE2 addresses (if any) followed by the transaction
@@ -1567,10 +1776,33 @@ func (g *c17Gen) tx() string {
 	from := w.eoas[g.pick(len(w.eoas))]
 	var root *c17Node
 	switch x := g.pick(100); {
-	case x < 40:
+	case x < 38:
 		root = &c17Node{tag: 'S', kind: 'c', call: g.call(from)}
-	case x < 43:
+	case x < 40:
 		root = &c17Node{tag: 'B', kind: 'c', badGov: g.pick(2) == 0}
+	case x < 44 && !g.rewardMode && !w.maskB: // (not while rewards are outstanding: "balance + 1" would be affordable after a payout)
+		// (S) several system-contract logs in one receipt, the natively failing one first / in the middle / last
+		tgt := w.proxies[g.pick(2)]
+		n := 3 + g.pick(3)
+		pos := []int{0, n / 2, n - 1}[g.pick(3)]
+		var body []*c17Node
+		for i := 0; i < n; i++ {
+			c := g.validCall(tgt)
+			if i == pos {
+				bal := w.app.BankKeeper.GetBalance(w.ctx, tgt.Bytes(), w.denom).Amount.BigInt()
+				switch g.pick(3) {
+				case 0:
+					c = &c17Call{fn: "delegate", v1: w.vals[g.pick(len(w.vals))].String(), amt: new(big.Int).Add(bal, big.NewInt(1))}
+				case 1:
+					c = &c17Call{fn: "vote", pid: 2, opt: 1} // proposal still in deposit period
+				default:
+					c = &c17Call{fn: "withdraw", v1: w.unknown.String()}
+				}
+			}
+			body = append(body, &c17Node{tag: 'S', kind: 'c', call: c})
+		}
+		g.shape[[]string{"fail-first", "fail-middle", "fail-last"}[map[int]int{0: 0, n / 2: 1, n - 1: 2}[pos]]] = true
+		root = &c17Node{tag: 'P', kind: 'c', target: tgt, body: body}
 	case x < 45: // value-bearing transaction straight into a system contract (functions are not payable)
 		root = &c17Node{tag: 'S', kind: 'v', call: g.call(from)}
 		g.shape["value"] = true
@@ -1606,6 +1838,7 @@ func (g *c17Gen) tx() string {
 	for k := range g.shape {
 		g.r.Count("shape." + k)
 	}
+	c17CapOpts(root.body, 101)
 	return "tx " + hx(from.Bytes()) + " " + w.nodeToks(root)
 }
 
@@ -1773,12 +2006,106 @@ func (g *c17Gen) entriesHistory() []string {
 	return ops
 }
 
+// boundaryHistory: (B) every boundary value of the amount field delegated by the rich account (in random order, so that
+// the consensus-power limit is met with different validator stakes), then undelegations of boundary amounts, weighted
+// votes with a single option of every boundary weight, with 5 … 1000 options, and votes on boundary proposal ids.
+func (g *c17Gen) boundaryHistory() []string {
+	w := g.w
+	rich := w.eoas[1]
+	mk := func(from common.Address, call *c17Call) string {
+		return "tx " + hx(from.Bytes()) + " " + w.nodeToks(&c17Node{tag: 'S', kind: 'c', call: call})
+	}
+	var ops []string
+	for _, i := range g.r.Rng.Perm(len(c17Boundaries)) {
+		b := c17Boundaries[i]
+		g.r.Count("bnd.amt." + b.name)
+		ops = append(ops, mk(rich, &c17Call{fn: "delegate", v1: w.vals[g.pick(3)].String(), amt: b.val()}))
+		if g.pick(3) == 0 {
+			bb := c17Boundaries[g.pick(len(c17Boundaries))]
+			ops = append(ops, mk(rich, &c17Call{fn: []string{"undelegate", "redelegate"}[g.pick(2)], v1: w.vals[g.pick(3)].String(), v2: w.vals[g.pick(3)].String(), amt: bb.val()}))
+		}
+	}
+	for _, wt := range []uint64{0, 1, 50, 99, 100, 101, 1 << 32, (1 << 32) + 100, 1 << 63, ^uint64(0)} {
+		g.r.Count("bnd.votew.single")
+		ops = append(ops, mk(w.eoas[g.pick(3)], &c17Call{fn: "votew", pid: []uint64{1, 3}[g.pick(2)], opts: []govcontract.GovOptionWeight{{Option: uint32(1 + g.pick(4)), Weight: wt}}}))
+	}
+	for _, n := range []int{4, 5, 8, 100, 101, 1000} {
+		var opts []govcontract.GovOptionWeight
+		for i := 0; i < n; i++ {
+			wt := uint64(1)
+			if i == 0 && n <= 100 {
+				wt = uint64(101 - n)
+			}
+			opts = append(opts, govcontract.GovOptionWeight{Option: uint32(1 + i%4), Weight: wt})
+		}
+		g.r.Count("bnd.votew.many")
+		ops = append(ops, mk(w.eoas[g.pick(3)], &c17Call{fn: "votew", pid: 3, opts: opts}))
+	}
+	for _, pid := range []uint64{0, 1, 2, 3, 4, (1 << 63) - 1, 1 << 63, ^uint64(0)} {
+		g.r.Count("bnd.pid")
+		ops = append(ops, mk(w.eoas[g.pick(3)], &c17Call{fn: "vote", pid: pid, opt: 1}))
+	}
+	return ops
+}
+
+// unbondingSlashHistory: (V) delegate, a block later undelegate and redelegate through the contract, a block later the
+// validator is slashed for an infraction at height 1: the unbonding entry is slashed out of the NOT-bonded pool, the
+// redelegation out of the destination validator — all burns must arrive at the fee collector, supply unchanged; then the
+// remaining entry matures through the real EndBlock and pays the caller.
+func (g *c17Gen) unbondingSlashHistory() []string {
+	w := g.w
+	from := w.eoas[g.pick(3)]
+	a := g.pick(3)
+	b := (a + 1 + g.pick(2)) % 3
+	e18 := new(big.Int).Exp(big.NewInt(10), big.NewInt(18), nil)
+	viaProxy := g.pick(2) == 0
+	mk := func(call *c17Call) string {
+		nd := &c17Node{tag: 'S', kind: 'c', call: call}
+		if viaProxy {
+			nd = &c17Node{tag: 'P', kind: 'c', target: w.proxies[1], body: []*c17Node{nd}}
+		}
+		return "tx " + hx(from.Bytes()) + " " + w.nodeToks(nd)
+	}
+	ops := []string{
+		mk(&c17Call{fn: "delegate", v1: w.vals[a].String(), amt: new(big.Int).Mul(e18, big.NewInt(10))}),
+		"block 5000000000",
+		mk(&c17Call{fn: "undelegate", v1: w.vals[a].String(), amt: new(big.Int).Mul(e18, big.NewInt(4))}),
+	}
+	if g.pick(2) == 0 {
+		ops = append(ops, mk(&c17Call{fn: "redelegate", v1: w.vals[a].String(), v2: w.vals[b].String(), amt: new(big.Int).Mul(e18, big.NewInt(2))}))
+	}
+	ops = append(ops, "block 5000000000")
+	if g.pick(3) > 0 {
+		ops = append(ops, fmt.Sprintf("slash %d %d past", a, []int{5, 50, 100}[g.pick(3)]))
+		ops = append(ops, fmt.Sprintf("block %d", int64(c17UnbondingTime)), "block 1000000000", mk(&c17Call{fn: "withdraw", v1: w.vals[a].String()}))
+	} else {
+		ops = append(ops, fmt.Sprintf("block %d", int64(c17UnbondingTime)-5_000_000_000+int64(g.pick(3)-1)), "block 1000000000",
+			mk(&c17Call{fn: "undelegate", v1: w.vals[a].String(), amt: e18}))
+	}
+	return ops
+}
+
 func TestC17(t *testing.T) {
 	r := NewRec(t, "C17")
 	defer r.Close()
 	w := newC17World()
 	var mod *c17Mod
+	var chain *c17Chain
 	one := func(op string) {
+		switch strings.Fields(op)[0] {
+		case "cinit", "dtx", "restart", "reimport", "cslash":
+			// committed chain: every operation is a block through DeliverTx + Commit; created on first use
+			if chain == nil {
+				chain = newC17Chain(t)
+				if !strings.HasPrefix(op, "cinit") {
+					c, out := chain.apply(r, "cinit")
+					r.Op(c, out)
+				}
+			}
+			c, out := chain.apply(r, op)
+			r.Op(c, out)
+			return
+		}
 		if strings.HasPrefix(op, "minit") || strings.HasPrefix(op, "recv ") {
 			// module-call path: two chains with light clients, created on first use
 			if mod == nil {
@@ -1829,8 +2156,21 @@ func TestC17(t *testing.T) {
 	for i := 0; i < hist; i++ {
 		one("reset")
 		g.govDrained = false
+		g.blocks = 0
 		if i%25 == 3 {
 			for _, op := range g.entriesHistory() {
+				one(op)
+			}
+			continue
+		}
+		if i%25 == 15 {
+			for _, op := range g.boundaryHistory() {
+				one(op)
+			}
+			continue
+		}
+		if i%25 == 9 {
+			for _, op := range g.unbondingSlashHistory() {
 				one(op)
 			}
 			continue
@@ -1841,12 +2181,29 @@ func TestC17(t *testing.T) {
 		special, at := g.pick(10), 1+g.pick(4)
 		for s := 0; s < steps; s++ {
 			if s == at && special == 0 {
-				one(fmt.Sprintf("slash %d %d", g.pick(3), []int{1, 5, 50, 100}[g.pick(4)]))
+				one(fmt.Sprintf("slash %d %d%s", g.pick(3), []int{1, 5, 50, 100}[g.pick(4)], g.past()))
 			}
 			if s == at && special == 1 {
 				one("allocate")
 			}
 			switch x := g.pick(100); {
+			case x < 5:
+				// (D) a discarded execution; half of the time the very same transaction is then executed for real (a keeper
+				// memo that ignores the context would now think it had been handled already)
+				t := g.tx()
+				pre := g.pre
+				one("dry" + t[2:])
+				if g.pick(2) == 0 {
+					for _, op := range pre {
+						one(op)
+					}
+					one(t)
+					r.Count("dry.then-real")
+				}
+			case x < 12 && g.blocks < 3:
+				for _, op := range g.blockOps() {
+					one(op)
+				}
 			case x < 78:
 				for _, op := range g.txOps() {
 					one(op)
@@ -1864,7 +2221,7 @@ func TestC17(t *testing.T) {
 		}
 		switch g.pick(5) {
 		case 0:
-			one(fmt.Sprintf("slash %d %d", g.pick(3), []int{0, 1, 5, 50, 100}[g.pick(5)]))
+			one(fmt.Sprintf("slash %d %d%s", g.pick(3), []int{0, 1, 5, 50, 100}[g.pick(5)], g.past()))
 		case 1:
 			if !g.govDrained {
 				one("govburn")
@@ -1876,7 +2233,7 @@ func TestC17(t *testing.T) {
 		}
 	}
 	// ---- module-call path: packets from chain A whose call data reaches the system contracts of chain B
-	nrecv := 120
+	nrecv := 160
 	if r.Tier == "thorough" {
 		nrecv = 600
 	}
@@ -1888,6 +2245,22 @@ func TestC17(t *testing.T) {
 		gm := &c17Gen{w: mod.wb, r: r}
 		for i := 0; i < nrecv; i++ {
 			one(gm.recvOp(mod))
+		}
+	}
+	// ---- committed chain with node restarts and restarts from an exported genesis
+	nchain := 60
+	if r.Tier == "thorough" {
+		nchain = 200
+	}
+	if n := envInt("VERIF_NCHAIN", -1); n >= 0 {
+		nchain = int(n)
+	}
+	if nchain > 0 {
+		one("cinit")
+		gc := &c17Gen{w: chain.w, r: r}
+		next := gc.chainOps(chain, nchain)
+		for i := 0; i < nchain; i++ {
+			one(next())
 		}
 	}
 }
